@@ -282,6 +282,13 @@ class _mark_ignore_name(ast.NodeTransformer):
         return new_node
 
 
+def _lambda_parameters(node: ast.Lambda) -> List[str]:
+    "Every name a lambda binds: positional, keyword-only, `*args` and `**kwargs` parameters"
+    a = node.args
+    params = [p.arg for p in a.posonlyargs + a.args + a.kwonlyargs]
+    return params + [p.arg for p in (a.vararg, a.kwarg) if p is not None]
+
+
 class _rewrite_captured_vars(ast.NodeTransformer):
     def __init__(self, cv: inspect.ClosureVars, expanding: Tuple[Any, ...] = ()):
         # `expanding`: the helper functions whose bodies are being rewritten (recursion guard)
@@ -374,7 +381,7 @@ class _rewrite_captured_vars(ast.NodeTransformer):
         return node
 
     def visit_Lambda(self, node: ast.Lambda) -> Any:
-        self._ignore_stack.append([a.arg for a in node.args.args])
+        self._ignore_stack.append(_lambda_parameters(node))
         v = super().generic_visit(node)
         self._ignore_stack.pop()
         return v
@@ -476,7 +483,7 @@ class _resolve_called_lambdas(ast.NodeTransformer):
 
     def visit_Lambda(self, node: ast.Lambda) -> Any:
         "The parameters of a lambda that stays in the tree hide arguments of the same name"
-        self._arg_map_list.append({a.arg: None for a in node.args.args})
+        self._arg_map_list.append({a: None for a in _lambda_parameters(node)})
         v = self.generic_visit(node)
         self._arg_map_list.pop()
         return v
